@@ -1,6 +1,8 @@
 package main
 
 import (
+	"encoding/json"
+	"errors"
 	"fmt"
 	"regexp"
 	"strings"
@@ -160,6 +162,14 @@ func c02Ctx(swapped bool) pongo2.Context {
 	ctx["tpl"] = []any{c02PStringer{m}, &c02PStringer{"p" + m}, c02PStringer{m}}
 	ctx["tfv"] = func() *pongo2.Value { return pongo2.AsValue(m) }
 	ctx["tfva"] = func(a any) *pongo2.Value { return pongo2.AsValue(fmt.Sprint(a) + m) }
+	// values that print as a Go type name today (byte slices in every wrapping, named byte slices, byte arrays): should
+	// they ever print as text, that text is context text like any other
+	ctx["tbytes"] = []byte(m)
+	ctx["tpbytes"] = &[]byte{'p', '<', '&', '\'', '"', '>'}
+	ctx["traw"] = json.RawMessage(m)
+	ctx["tbyteholder"] = map[string]any{"b": []byte(m), "l": [][]byte{[]byte(m)}}
+	ctx["terr"] = fmt.Errorf("wrapped %w", errors.New(m))
+	ctx["trunes"] = []rune(m)
 	ctx["tstruct"] = struct {
 		Field string
 		List  []any
@@ -178,7 +188,7 @@ func c02Ctx(swapped bool) pongo2.Context {
 	return ctx
 }
 
-var c02CtxVars = []string{"t1", "t2", "tl", "tm", "ts", "tf()", "tenum", "tflag", "tratio", "tenums.0", "tenums.1", "tenums.2", "tpv", "tpp", "tpl.0", "tpl.1", "tfa(t1)", "tfv()", "tfva(t2)", "tfva(1)", "tany", "tstruct.Field", "tstruct.List", "tl.0", "tm.a", "z_str", "z_stringer", "z_safevalue"}
+var c02CtxVars = []string{"t1", "t2", "tl", "tm", "ts", "tf()", "tenum", "tflag", "tratio", "tenums.0", "tenums.1", "tenums.2", "tpv", "tpp", "tpl.0", "tpl.1", "tfa(t1)", "tfv()", "tfva(t2)", "tfva(1)", "tany", "tstruct.Field", "tstruct.List", "tl.0", "tm.a", "z_str", "z_stringer", "z_safevalue", "tbytes", "tpbytes", "traw", "tbyteholder.b", "tbyteholder.l.0", "terr", "trunes"}
 
 var c02OptOutFilters = map[string]bool{"safe": true, "truncatechars_html": true, "truncatewords_html": true}
 var c02MarkupFilters = map[string]bool{"urlize": true, "urlizetrunc": true, "linebreaks": true, "linebreaksbr": true}
@@ -310,6 +320,38 @@ func c02Run(c *C) {
 				}
 			}
 			c.Cover("autoescape_in_sandboxed_sets")
+			// the package-level default (pongo2.SetAutoescape) is what an EXECUTION starts with: a template compiled while the
+			// default was off escapes like any other once the default is on again (and the other way round)
+			{
+				aset, _ := newSet(map[string]string{"/inc.tpl": "{{ t2 }}", "/base.tpl": "{% block b %}{{ t1 }}{% endblock %}"})
+				const asrc = `{{ t1 }}{% for i in tl %}{{ i }}{% endfor %}{% include "/inc.tpl" %}{% macro m(a) %}{{ a }}{% endmacro %}{{ m(t1) }}{% firstof t1 %}{% cycle t1 t2 %}{{ ts }}{{ tenum }}`
+				var offTpl, offChild, offCached *pongo2.Template
+				var e1, e2, e3 error
+				func() {
+					pongo2.SetAutoescape(false)
+					defer pongo2.SetAutoescape(true)
+					offTpl, e1 = aset.FromString(asrc)
+					offChild, e2 = aset.FromString(`{% extends "/base.tpl" %}{% block b %}{{ block.Super }}{{ t2 }}{% endblock %}`)
+					offCached, e3 = aset.FromCache("/inc.tpl")
+				}()
+				if e1 != nil || e2 != nil || e3 != nil {
+					c.Fail("setup", D{"source": asrc, "error": errStr(e1) + errStr(e2) + errStr(e3)})
+					return
+				}
+				for name, t := range map[string]*pongo2.Template{"compiled while SetAutoescape(false)": offTpl, "child compiled while SetAutoescape(false)": offChild, "FromCache while SetAutoescape(false)": offCached} {
+					aout, axerr := t.Execute(c02Ctx(false))
+					c.Eval(1)
+					if axerr != nil {
+						c.Fail("setup", D{"template": name, "error": axerr.Error()})
+						return
+					}
+					if leak := c02Leak(aout, false); leak != "" {
+						c.Fail("raw-leak", D{"template": name, "source": asrc, "output": q(truncStr(aout, 500)), "leak": q(leak), "why": "executed after pongo2.SetAutoescape(true): autoescape is on, no opt-out is written"})
+						return
+					}
+				}
+				c.Cover("package_level_autoescape_default_toggled")
+			}
 			return
 		}
 		if c02OptOutFilters[f] {
